@@ -270,7 +270,7 @@ def m_from_utf8_lossy(c, s):
     return EnumV(BV(64, 0), {'Borrowed': [Ptr(Cell(Seq(its, 'str'), 'lossy'), ())]}, 'Cow')
 
 
-@model(r'^(?:std::string::)?String::from_utf8$|^(?:std|core)::str::from_utf8$|^(?:core::)?str::converts::from_utf8$')
+@model(r'^(?:std::string::)?String::from_utf8$|^(?:std|core)::str::from_utf8$|^(?:core::)?str::converts::from_utf8$|^from_utf8$')
 def m_from_utf8(c, s):
     ip = c.ip
     its = list(items(ip, s))
